@@ -39,6 +39,13 @@ def gen_plan(rng, opts=None):
             ops.append(["purge", h, f"t{rng.randrange(max(1, tag))}"])
         else:
             ops.append(["wait", rng.choice([1, 20, 50])])
+    stall = None
+    if o.get("burst"):
+        # far more messages than any one receive round is likely to see, queued at one listener while its process is descheduled
+        ops = []
+        for i in range(rng.randint(66, 140)):
+            ops.append(rng.choice([["purge", 0, f"t{i}"], ["purge", 0, f"t{i}"], ["tx", 0, f"t{i}"]]) if n > 1 else ["purge", 0, f"t{i}"])
+        stall = dict(host=0, at_op=rng.randint(0, 4), ms=rng.choice([300, 700, 1500]))
     net = dict(lat_lo=50_000, lat_hi=rng.choice([50_000, 2_000_000, 300_000_000]), drop=0, dup=0, max_consec=None)
     if o["lossy"]:
         net.update(drop=rng.choice([0, 5, 15, 30, 45]), dup=rng.choice([0, 5, 15, 30]), max_consec=rng.choice([2, 4, None]))
@@ -47,7 +54,7 @@ def gen_plan(rng, opts=None):
     if o["partition"]:
         part = dict(host=rng.randrange(n), at_op=rng.randrange(len(ops)), dir=rng.choice(["both", "to_ctrl", "to_exec"]))
         knobs["max_retries"] = rng.choice([3, 5])
-    return dict(mode="traffic", n=n, wph=wph, ops=ops, net=net, knobs=knobs, partition=part, stagger=stagger)
+    return dict(mode="traffic", n=n, wph=wph, ops=ops, net=net, knobs=knobs, partition=part, stagger=stagger, stall=stall)
 
 
 class Mon:
@@ -55,6 +62,7 @@ class Mon:
         self.K = K
         self.sent = {}        # (sender address, idx) -> dict(dest, msg, t, teardown)
         self.delivered = collections.Counter()   # (sender address, idx) -> times returned to an application
+        self.accepted = {}    # id(listener) -> id(message) -> (key, message): taken off the wire by _recv_one, not yet returned by recv_messages
         self.delivered_at = {}
         self.suppressed = 0
         self.viol = []
@@ -148,20 +156,39 @@ class Mon:
                         mon.suppressed += 1
                         K.probe("duplicate_syn_suppressed")
                     else:
-                        mon.delivered[key] += 1
-                        mon.delivered_at[key] = fakes.Net.norm(self_.address)
-                        if mon.delivered[key] > 1:
-                            mon.v("delivered_twice", (key, type(m).__name__))
-                        s = mon.sent.get(key)
-                        if s is None:
-                            mon.v("delivered_never_sent", (key, repr(m)[:100]))
-                        else:
-                            if s["msg"] != m:
-                                mon.v("delivered_differs_from_sent", (key, repr(s["msg"])[:100], repr(m)[:100]))
-                            if s["dest"] is not None and s["dest"] != fakes.Net.norm(self_.address):
-                                mon.v("delivered_to_wrong_endpoint", (key, s["dest"], self_.address))
+                        # accepted by the listener; it counts as delivered when recv_messages hands it to its caller
+                        mon.accepted.setdefault(id(self_), {})[id(m)] = (key, m)
             return m
         self.patch(comms.Listener, "_recv_one", one)
+        orig_many = comms.Listener.recv_messages
+
+        def many(self_, *a, **kw):
+            out = orig_many(self_, *a, **kw)
+            mine = mon.accepted.setdefault(id(self_), {})
+            for m in out:
+                ent = mine.pop(id(m), None)
+                if ent is None or ent[1] is not m:
+                    continue
+                key = ent[0]
+                mon.delivered[key] += 1
+                mon.delivered_at[key] = fakes.Net.norm(self_.address)
+                if mon.delivered[key] > 1:
+                    mon.v("delivered_twice", (key, type(m).__name__))
+                s = mon.sent.get(key)
+                if s is None:
+                    mon.v("delivered_never_sent", (key, repr(m)[:100]))
+                else:
+                    if s["msg"] != m:
+                        mon.v("delivered_differs_from_sent", (key, repr(s["msg"])[:100], repr(m)[:100]))
+                    if s["dest"] is not None and s["dest"] != fakes.Net.norm(self_.address):
+                        mon.v("delivered_to_wrong_endpoint", (key, s["dest"], self_.address))
+            if mine:
+                # read off the socket, acknowledged to its sender (who will never resend it), and then not returned
+                for key, m in list(mine.values()):
+                    mon.v("acknowledged_message_dropped_by_receiver", (key, type(m).__name__, fakes.Net.norm(self_.address)))
+                mine.clear()
+            return out
+        self.patch(comms.Listener, "recv_messages", many)
 
 
 def run(plan, ch, want_log=False):
@@ -290,6 +317,10 @@ def _run_traffic(plan, ch, want_log):
                 if part and oi == part["at_op"]:
                     pstate["on"], pstate["since"] = True, K.now
                     K.fire("partition")
+                if plan.get("stall") and oi == plan["stall"]["at_op"]:
+                    victim = next((p for p in K.procs if p.name == f"h{plan['stall']['host']}"), None)
+                    if victim is not None:
+                        K.stall(victim, plan["stall"]["ms"] * 1_000_000)
                 if op[0] == "ts":
                     b.task_sequence(TaskSequence(worker=WorkerId(f"h{op[1]}", f"w{op[2]}"), tasks=[op[3]], publish=set()))
                     expected += 1
